@@ -158,6 +158,7 @@ class Sim:
         self.failure = None      # SimDeadlock/SimBudget instance pending for driver
         self.p_switch = p_switch
         self.p_stall = 0.0
+        self.p_preempt_stall = 0.0      # share of statement-level pre-emptions that are a stall instead of a switch
         self.stall_choices = (0.001, 0.1, 1.0)
         self.trace_files = trace_files  # set of filenames or None
         self.p_preempt = p_preempt
@@ -286,6 +287,14 @@ class Sim:
             self._fail(SimBudget("budget exceeded (traced): steps=%d" % self.steps))
             return
         if self.preemptions < self.max_preempt and self.choose_bool(self.p_preempt):
+            if self.p_preempt_stall and self.choose_bool(self.p_preempt_stall):
+                # not merely "someone else runs next": this thread is off the CPU for a while (virtual time), so
+                # that others get through several of their own synchronisation points meanwhile
+                self.preemptions += 1
+                self.involuntary += 1
+                self.fault("stall_between_statements")
+                self.block([], self.stall_choices[self.choose(len(self.stall_choices))])
+                return
             others = [t for t in self.tasks if t.state == RUNNABLE and t is not me]
             if others:
                 self.preemptions += 1
